@@ -154,7 +154,12 @@ impl Family for ZeroCols {
         let c0 = Arc::new(Vec::new());
         let mut prog = Vec::new();
         // how: 0 = end_row, 1 = write_row, 2 = second of two zero-column sets (first has 3 rows),
-        //      3 = write_col calls (ignored) between end_row calls
+        //      3 = write_col calls (ignored) between end_row calls; every fourth count is also
+        //      preceded by a completion that must arrive on its own
+        let lead = n % 4 == 1;
+        if lead {
+            prog.push(WOp::CompleteOne(300 + n, 70000 + n));
+        }
         if how == 2 {
             prog.push(WOp::Start(c0.clone()));
             for _ in 0..3 {
@@ -182,8 +187,14 @@ impl Family for ZeroCols {
             Some(Unit::Ok { rows, id: 0, .. }) if *rows == n => {}
             other => return Err(Violation::new("zero-column-count", format!("{} rows ended on a zero-column resultset (variant {}), client sees {:?}", n, how, other))),
         }
-        if how == 2 {
+        if lead {
             match units.first() {
+                Some(Unit::Ok { rows, id, .. }) if *rows == 300 + n && *id == 70000 + n => {}
+                other => return Err(Violation::new("completion-before-zero-column-set-lost", format!("complete_one({}, {}) followed by a zero-column resultset arrived as {:?}", 300 + n, 70000 + n, other))),
+            }
+        }
+        if how == 2 {
+            match units.get(if lead { 1 } else { 0 }) {
                 Some(Unit::Ok { rows: 3, .. }) => {}
                 other => return Err(Violation::new("zero-column-count", format!("first zero-column set of 3 rows arrived as {:?}", other))),
             }
